@@ -568,9 +568,9 @@ PROPS = {
         "assumptions": ["len() is observed on a fresh iterator only (the property asks for the count up front)"],
     },
     "C20": {
-        "lean_modules": ["Dbg.Props.C20", "Dbg.Props.C09c"],
-        "theorems": ["CompressGraph.C20_gfa_complete_after_recompress", "Export.gfa_complete_of_compress", "Export.gfa_no_duplicate", "Export.gfa_links_complete_ginv", "Export.edges_ports_nodup", "Export.gfa_link_sound", "Export.gfa_links_complete", "Export.gfa_segment", "Export.mem_allLinks"],
-        "partial": ["JSON well-formedness (json_render) and serde round trips: decided by execution (JSON text compared verbatim with the model and parsed by serde_json; round trips compared). gfa_links_complete_ginv assumes the node-level invariant GInv, proved for the output of compress_kmers (gfa_complete_of_compress), of compress_graph without censoring (C20_gfa_complete_after_recompress) and of the sharded pipeline (C04_sharded_eq_direct); for hand-built graphs it is a decidable hypothesis"],
+        "lean_modules": ["Dbg.Props.C20", "Dbg.Props.C20b", "Dbg.Props.C09c"],
+        "theorems": ["Export.C20_json_writer_eq_document", "Export.C20_json_lists_every_node", "Export.C20_json_lists_every_link", "CompressGraph.C20_gfa_complete_after_recompress", "Export.gfa_complete_of_compress", "Export.gfa_no_duplicate", "Export.gfa_links_complete_ginv", "Export.edges_ports_nodup", "Export.gfa_link_sound", "Export.gfa_links_complete", "Export.gfa_segment", "Export.mem_allLinks"],
+        "partial": ["JSON: the writer modelled statement by statement (index tests, wrote_any flag, per-group comma test) is proved to emit exactly the document jsonDoc - arrays whose items are separated, never followed, by commas - for every graph (C20_json_writer_eq_document); that jsonDoc is accepted by a JSON parser is by inspection of its four lines plus serde_json parsing of every exported text in the correspondence; serde round trips are compared by execution. gfa_links_complete_ginv assumes the node-level invariant GInv, proved for the output of compress_kmers (gfa_complete_of_compress), of compress_graph without censoring (C20_gfa_complete_after_recompress) and of the sharded pipeline (C04_sharded_eq_direct); for hand-built graphs it is a decidable hypothesis"],
         "n_quick": 3000, "n_thorough": 200000,
         "nontrivial": lambda toks, impl: impl != "panic" and (toks[1] != "export" or toks[4].count(",") >= 1), "tags": _c20_tags,
         "shrink": _c20_shrink,
